@@ -175,16 +175,21 @@ class AbstractSpecification(object):
 
     @property
     def sampling_violation_counter(self):
+        # a specification with both interpreters counts in the one that is used
+        counter = None
         if hasattr(self, 'online_interpreter'):
             if isinstance(self.online_interpreter, DiscreteTimeInterpreter):
-                return self.online_interpreter.sampling_violation_counter
+                counter = self.online_interpreter.sampling_violation_counter
             else:
                 RTAMTException('only discrete time has sampling_violation_counter')
         if hasattr(self, 'offline_interpreter'):
             if isinstance(self.offline_interpreter, DiscreteTimeInterpreter):
-                return self.offline_interpreter.sampling_violation_counter
+                if counter is None:
+                    counter = 0
+                counter = counter + self.offline_interpreter.sampling_violation_counter
             else:
                 RTAMTException('only discrete time has sampling_violation_counter')
+        return counter
 
     @property
     def sampling_tolerance(self):
